@@ -125,6 +125,138 @@ def run(chk):
             chk.correspondence_broken("sort_modules differs from C27.sortModules", g, mout, out)
             # the disagreeing case already satisfied the clauses: keep looking on the remaining cases
     chk.cov["distribution"] = {"acyclic": n_acyclic, "cyclic": n_cyclic}
+    closure_extension(chk)
+
+
+# ---------------------------------------------------------------------------------------
+# Extension (outside the statement of C27, never a VIOLATION): the producer of the map,
+# `ModuleManager.get_all_dependencies_recursively`, against `C27.closure`; theorems
+# C27_closure_* / C27_pipeline_* in Props/C27.lean.  The pop order of the real `todo` set is
+# not observable; by C27_closure_deterministic the map is independent of it, so maps are
+# compared as maps and the model is run with a random oracle.
+def random_world(rng):
+    n = rng.randint(2, 8)
+    mods = list(range(1, n + 1))
+    missing = [m for m in mods if rng.random() < 0.2]          # used but no source file
+    ignores = [m for m in mods if rng.random() < 0.15]
+    dag = rng.random() < 0.5
+    p = rng.choice([0.15, 0.3, 0.5])
+    files = []
+    for m in mods:
+        if m in missing:
+            continue
+        us = [d for d in mods if rng.random() < p and (not dag or d < m)]
+        rng.shuffle(us)
+        files.append((m, us))
+    k = rng.randint(1, min(3, n))
+    init = rng.sample(mods, k)
+    oracle = [rng.randint(0, 7) for _ in range(rng.randint(0, 12))]
+    return {"files": files, "ignores": ignores, "init": init, "oracle": oracle}
+
+
+def real_closure(world, tmp):
+    import os
+    from psyclone.parse import ModuleManager
+    d = os.path.join(tmp, "w")
+    os.makedirs(d)
+    for m, us in world["files"]:
+        with open(os.path.join(d, f"mod{m}.f90"), "w") as f:
+            f.write(f"module mod{m}\n  use, intrinsic :: iso_c_binding\n" +
+                    "".join(f"  use mod{u}\n" for u in us) + f"end module mod{m}\n")
+    ModuleManager._instance = None
+    try:
+        mm = ModuleManager.get()
+        mm.add_search_path(d)
+        for i in world["ignores"]:
+            mm.add_ignore_module(f"mod{i}")
+        with contextlib.redirect_stdout(io.StringIO()):
+            deps = mm.get_all_dependencies_recursively({f"mod{m}" for m in world["init"]})
+            out = mm.sort_modules(deps)
+    finally:
+        ModuleManager._instance = None
+        import shutil
+        shutil.rmtree(d)
+    return [(int(k[3:]), sorted(int(x[3:]) for x in v)) for k, v in deps.items()], [int(x[3:]) for x in out]
+
+
+def pipeline_clauses(world, out):
+    files = dict(world["files"])
+    ign = set(world["ignores"])
+    seen, todo = set(), list(world["init"])
+    while todo:                                   # independent reachability
+        m = todo.pop()
+        if m in seen:
+            continue
+        seen.add(m)
+        if m in files and m not in ign:
+            todo += files[m]
+    want = sorted(m for m in seen if m in files and m not in ign)
+    if sorted(out) != want:
+        return f"pipeline returned {sorted(out)}, required modules are {want}"
+    g = [(m, [d for d in files[m] if d in want]) for m in want]
+    if acyclic(g):
+        pos = {m: i for i, m in enumerate(out)}
+        for m, ds in g:
+            for d in ds:
+                if not pos[d] < pos[m]:
+                    return f"module {m} precedes module {d} which it uses"
+    return None
+
+
+def closure_extension(chk):
+    import tempfile
+    n = 1500 if chk.tier == "thorough" else 250
+    worlds = [random_world(chk.rng) for _ in range(n)]
+    lines = [sx(["closure", [[m] + us for m, us in w["files"]], w["ignores"], w["init"], w["oracle"]])
+             for w in worlds]
+    model = driver("C27", lines)
+    ext = {"cases": n, "map_agree": 0, "map_differ": [], "pipeline_clause_failures": [], "with_missing": 0,
+           "with_ignored": 0, "cyclic": 0}
+    with tempfile.TemporaryDirectory(prefix="c27-") as tmp:
+        for w, mo in zip(worlds, model):
+            rmap, rout = real_closure(w, tmp)
+            mmap, _ = parse_sx(mo)
+            mm = sorted((e[0], sorted(e[1:])) for e in mmap)
+            if mm == sorted(rmap):
+                ext["map_agree"] += 1
+            elif len(ext["map_differ"]) < 5:
+                ext["map_differ"].append({"world": w, "model": mm, "real": sorted(rmap)})
+            why = pipeline_clauses(w, rout)
+            if why and len(ext["pipeline_clause_failures"]) < 5:
+                ext["pipeline_clause_failures"].append({"world": w, "out": rout, "why": why})
+            present = {m for m, _ in w["files"]}
+            ext["with_missing"] += any(d not in present for _, us in w["files"] for d in us)
+            ext["with_ignored"] += bool(w["ignores"])
+            ext["cyclic"] += not acyclic([(m, [d for d in us if d in present]) for m, us in w["files"]])
+        ext["mixed_case_use"] = mixed_case_probe(tmp)
+    chk.cov["closure_extension"] = ext
+    if ext["map_differ"] or ext["pipeline_clause_failures"]:
+        print("NOTE C27 extension (not part of the property): get_all_dependencies_recursively differs from "
+              "C27.closure or the closure-then-sort pipeline fails its clauses; see evidence closure_extension")
+
+
+def mixed_case_probe(tmp):
+    """Observation outside the property: USE names are not lower-cased by ModuleInfo, so a module used as
+    `B_Mod` is recorded as an unknown dependency and the pipeline may order it after its user."""
+    import os
+    import shutil
+    from psyclone.parse import ModuleManager
+    d = os.path.join(tmp, "mc")
+    os.makedirs(d)
+    open(os.path.join(d, "a_mod.f90"), "w").write("module a_mod\n use B_Mod, only: x\nend module a_mod\n")
+    open(os.path.join(d, "b_mod.f90"), "w").write("module b_mod\n integer :: x\nend module b_mod\n")
+    ModuleManager._instance = None
+    try:
+        mm = ModuleManager.get()
+        mm.add_search_path(d)
+        with contextlib.redirect_stdout(io.StringIO()):
+            deps = mm.get_all_dependencies_recursively({"a_mod"})
+            out = mm.sort_modules(deps)
+    finally:
+        ModuleManager._instance = None
+        shutil.rmtree(d)
+    return {"deps": {k: sorted(v) for k, v in deps.items()}, "sorted": out,
+            "dependency_first": out.index("b_mod") < out.index("a_mod") if "b_mod" in out else None}
 
 
 def replay(payload):
